@@ -124,6 +124,11 @@ def catalogue():
     T.append(("each_include", [("each", "xs", [("item",), ("text", "inner}}")])], {"inner": [("text", "INNER")]}, ["xs"], "loop_item"))
     T.append(("include_adjacent", [("include", "inner"), ("text", "y}}")], {"inner": [("opt", "x")]}, ["x", "y"], "include"))
     T.append(("missing_var", [("text", "v="), ("var", "nope"), ("var", "x")], {}, ["x"], "plain"))
+    # a default (which cannot contain `}`) that ends in an unterminated opener, directly followed by `}}`: if the
+    # default were re-scanned it would pull in y / the included template
+    T.append(("default_opener", [("default", "z", "{{y"), ("text", "}} "), ("var", "x")], {}, ["x", "y"], "defaulted"))
+    T.append(("default_opener_opt", [("default", "z", "{{?y"), ("text", "}}")], {}, ["y"], "defaulted"))
+    T.append(("default_opener_incl", [("include", "outer")], {"outer": [("text", "["), ("default", "z", "{{y"), ("text", "}}]")]}, ["y"], "include"))
     return T
 
 
